@@ -657,6 +657,9 @@ def c01(ctx: Ctx) -> None:
                 isinstance(p, ast.Attribute) and p.value is x) or (
                 isinstance(p, ast.Compare) and len(p.ops) == 1 and isinstance(p.ops[0], (ast.In, ast.NotIn)) and p.comparators[0] is x
                 and any(m.meta.get('test') is p for m in r.MEMBER))
+            if not okp and isinstance(p, ast.Call) and any(a_ is x for a_ in p.args) and any(
+                    n_.kind == 'inline_enter' and n_.ast is p for n_ in g.nodes):
+                okp = True      # handed to a private helper that is read in place: its accesses are in the graph
             if not okp:
                 ctx.undecided('C01-R1', f'table escapes: {norm(p)}', f'{FILE}:{x.lineno}', 'unrecognised use of the table')
     # R2 / R3
